@@ -146,6 +146,12 @@ def finish(mod, tier, seed, t0, cases, model_out, impl_out, failures, unproved, 
         lines.append("VIOLATION property=%s replay=%s no-failing-input-found" % (pid, path))
         nviol += 1
         exit_code = 1
+    elif not unproved:
+        # a replay from an earlier run in which a proof or the tie did not check is stale now
+        try:
+            os.remove(os.path.join("/verif/replays", pid, "unproved.json"))
+        except OSError:
+            pass
     nontriv = set()
     for c, m in zip(cases, model_out):
         if m is not None and mod.nontrivial(c, m):
